@@ -57,10 +57,10 @@ def allowed_sets(desc, pars):
             if i > 0:
                 s.add((l["id"], "v", i - 1))
             else:
-                if len(ins[up]) == 1:
-                    mu = ins[up][0]
-                    s.add((mu["id"], "v", mu["N"] - 1))
-                elif len(ins[up]) >= 2:
+                if len(ins[up]) >= 1:
+                    # one entering link: the flow-weighted speed reduces to its speed, but an
+                    # implementation may still form the weighted expression (structural dependence
+                    # on its density) — allowed either way
                     for mu in ins[up]:
                         s |= seg(mu, mu["N"] - 1)
                 o = org.get(up)
